@@ -347,6 +347,15 @@ Definition oracle_c03_run (before : list ident) (hs : list handler) (signer : na
              forallb (fun ev => match ev with
                                 | EvAgent _ (RAdd id) _ _ => (0 <? i_life id) && (v <=? i_life id)
                                 | _ => true
+                                end) log &&
+             (* ... and not shorter than the validity any signing request of this run asks the CA for *)
+             forallb (fun ev => match ev with
+                                | EvSigner _ rq =>
+                                    forallb (fun ev' => match ev' with
+                                                        | EvAgent _ (RAdd id) _ _ => c_validity rq <=? i_life id
+                                                        | _ => true
+                                                        end) log
+                                | _ => true
                                 end) log
            else true) &&
           match o_res o with
